@@ -18,6 +18,7 @@ func init() {
 			"R3 the import table of ImportMatcher.Match, extracted as a full decision table over the atoms {import absent, patch import unnamed, file import unnamed, patch name is a metavariable}, equals the documented one (absent -> no match; unnamed/unnamed -> match; unnamed/named -> no match; literal-named/unnamed -> no match; metavariable-named/unnamed -> verdict of the name matcher on a synthetic identifier carrying the patch-side name; named/named -> verdict of the name matcher on the file's name), and NameIsMetavar is LookupVar(name) == IdentMetavarType; " +
 			"R4 every listed import must match (loop covers all, a failed import returns false; ok-discipline); R5 a fake package clause is ignored: pgo.Parse clears Package exactly when the first augmentation is a FakePackage; " +
 			"R6 imports are looked up by unquoted path over all of file.Imports, and the lookup is a pure function of the file (no package-level state anywhere in the matching code). " +
+			"R7 the guards reach the matcher — compileFile builds the FileMatcher's Package from file.Package and its Imports from compileImports(file.Imports) of the very pattern file it compiles, compileChange compiles the matcher from Patch.Minus, pgo.Parse fills Package/Imports from what go/parser read, and no other code constructs a pgo.File without copying both guard fields or overwrites them afterwards. " +
 			"NOT decided: files importing one path twice in different forms (first spec wins); dot/blank forms are handled by the generic name matcher (covered by C01's rules).",
 		Trusted:     commonTrusted,
 		Assumptions: commonAssumptions,
